@@ -222,9 +222,13 @@ def showExprW : Expr → List String
   | .caseWhen parts => s!"case{parts.length / 2}" :: showCaseW parts
   | .caseOf x parts => s!"casex{parts.length / 2}" :: (showExprW x ++ showCaseW parts)
   | .strFn f e =>
-    (match f with | .upper => "upper" | .lower => "lower" | .length => "length" | .ltrim => "ltrim" | .rtrim => "rtrim")
+    (match f with
+      | .upper => "upper" | .lower => "lower" | .length => "length" | .ltrim => "ltrim" | .rtrim => "rtrim"
+      | .abs => "abs" | .ceil => "ceil" | .floor => "floor" | .round => "round")
       :: showExprW e
   | .concat a b => "cat" :: (showExprW a ++ showExprW b)
+  | .nullif a b => "nullif" :: (showExprW a ++ showExprW b)
+  | .coalesce xs => s!"coal{xs.length}" :: showExprsW xs
 def showCaseW : List Expr → List String
   | [] => ["noelse"]
   | [e] => "else" :: showExprW e
